@@ -116,6 +116,11 @@ impl Write for Cap {
 
 /// the in-process library run: (printed output, Ok / Err(Display text)); None = watchdog fired
 fn run_library(value: &str, is_file: bool) -> Option<(String, Result<(), String>)> {
+    run_library_known(value, is_file, None)
+}
+
+/// `known_text`: the content of the file when it can be read only once (a named pipe)
+fn run_library_known(value: &str, is_file: bool, known_text: Option<&str>) -> Option<(String, Result<(), String>)> {
     let buf = Rc::new(RefCell::new(Vec::new()));
     let halt = guarded_halt(3000);
     let env = Env::new(Some(Box::new(Cap(buf.clone()))), Some(Box::new(crate::scripted::Sink)), Some(halt.clone()));
@@ -127,7 +132,7 @@ fn run_library(value: &str, is_file: bool) -> Option<(String, Result<(), String>
     let out = String::from_utf8_lossy(&buf.borrow()).to_string();
     // `!print` lines write to the process's stdout while the text is PARSED (once per parse, before
     // anything runs): the library run of a text that parses printed each of them exactly once
-    let text = if is_file { std::fs::read_to_string(value).unwrap_or_default() } else { value.to_string() };
+    let text = match known_text { Some(t) => t.to_string(), None => if is_file { std::fs::read_to_string(value).unwrap_or_default() } else { value.to_string() } };
     let mut printed = String::new();
     if text.contains("!print") {
         if let Ok(instructions) = duckscript::parser::parse_text(&text) {
@@ -285,6 +290,55 @@ fn run_cli_case(args: &[String], content: Option<&str>) -> String {
     if matched.is_empty() { nomatch(&obs) } else { matched.join("|") }
 }
 
+/// feed `content` to whoever opens the named pipe `path` for reading (within 4 s)
+fn fifo_writer(path: String, content: String) -> std::thread::JoinHandle<bool> {
+    std::thread::spawn(move || {
+        use std::os::unix::fs::OpenOptionsExt;
+        let deadline = Instant::now() + Duration::from_secs(4);
+        loop {
+            // O_NONBLOCK (0o4000 on Linux): opening a FIFO for writing fails while nobody reads it
+            match std::fs::OpenOptions::new().write(true).custom_flags(0o4000).open(&path) {
+                Ok(mut f) => {
+                    let _ = f.write_all(content.as_bytes());
+                    return true;
+                }
+                Err(_) => {
+                    if Instant::now() >= deadline {
+                        return false;
+                    }
+                    std::thread::sleep(Duration::from_millis(1));
+                }
+            }
+        }
+    })
+}
+
+/// `duck <named pipe>`: the executable must do what the library does with a file of that name
+/// and content (the library run reads the same pipe, fed a second time)
+fn run_fifo_case(content: &str) -> String {
+    let path = temp_path();
+    let _guard = TempFile(path.clone());
+    match Command::new("mkfifo").arg(&path).status() {
+        Ok(st) if st.success() => {}
+        _ => return "fifo NO-MKFIFO".to_string(),
+    }
+    let w = fifo_writer(path.clone(), content.to_string());
+    let lib = run_library_known(&path, true, Some(content));
+    let fed_lib = w.join().unwrap_or(false);
+    let w = fifo_writer(path.clone(), content.to_string());
+    let obs = run_duck(&[path.clone()], None);
+    let fed_cli = w.join().unwrap_or(false);
+    if !fed_lib {
+        return "fifo library-did-not-read".to_string();
+    }
+    match lib {
+        Some(lib) => {
+            if fed_cli && !obs.timed_out && matches_library(&obs, &lib) { "fifo-ok".to_string() } else { format!("{} fed={}", nomatch(&obs), fed_cli) }
+        }
+        None => "fifo library-watchdog".to_string(),
+    }
+}
+
 fn run_lint_case(text: &str) -> String {
     let path = temp_path();
     let _guard = TempFile(path.clone());
@@ -403,10 +457,12 @@ fn good_line(rng: &mut Rng) -> String {
 /// a line with an upper-case letter in label, command or output (runs fine unless the command
 /// is the misspelt part: command names are case-sensitive)
 fn mixed_line(rng: &mut Rng) -> String {
-    match rng.below(8) {
+    match rng.below(9) {
         0 => format!("{} echo {}", rng.pick_s(&MIXED_LABELS), words(rng)),
         1 => format!("{} = set {}", rng.pick_s(&MIXED_NAMES), rng.pick_s(&WORDS)),
         2 => format!("{} {}", rng.pick_s(&["Echo", "ECHO", "eCho", "Set", "std::Echo"]), words(rng)),
+        // the full `package::Name` spelling of a command: its last part is not lower-case
+        8 => format!("{}{} {}", if rng.chance(1, 3) { "x = " } else { "" }, rng.pick_s(&["std::Echo", "std::collections::Array", "std::IsDefined", "std::string::IsEmpty", "std::Noop", "My::print", "a::B"]), rng.pick_s(&["a", "x1", "hello"])),
         3 => format!("{} {} = {} a", rng.pick_s(&MIXED_LABELS), rng.pick_s(&MIXED_NAMES), rng.pick_s(&["Echo", "echo"])),
         4 => rng.pick_s(&MIXED_LABELS).to_string(),
         // an output variable without a command (the documented way to unset it)
@@ -622,6 +678,20 @@ impl Prop for C20Prop {
         if rng.chance(1, 10) {
             return gen_repl(rng);
         }
+        if rng.chance(1, 25) {
+            // the script file is a NAMED PIPE (what `duck <(generator)` hands over): a file is
+            // whatever can be read under that name
+            return case(format!("clififo {}", enc_str(&text)), vec!["form:file-is-a-fifo", ktag, mtag], dom);
+        }
+        if rng.chance(1, 25) {
+            // an eval text that is, as a whole, wrapped in one pair of quotes (what a launcher that
+            // bypasses the shell leaves behind): the text is the script, quotes included
+            let inner = rng.pick_s(&["echo hello", "exit 3", "echo a b", "", "x = set 1", "badcmd"]);
+            let q = rng.pick_s(&["\"", "'"]);
+            let pad = rng.pick_s(&["", " ", "\n"]);
+            let t = format!("{}{}{}{}{}", pad, q, inner, q, pad);
+            return case(cli_req(&[rng.pick_s(&["-e", "--eval"]), &t], None), vec!["form:-e", "eval-text-in-quotes", mtag], true);
+        }
         let form = rng.below(12);
         // run forms: sometimes a `!print` line (printed once, when the text is parsed)
         let text = if (3..=6).contains(&form) && kind != Kind::ParseError && rng.chance(1, 3) {
@@ -680,6 +750,7 @@ impl Prop for C20Prop {
             "lint" => run_lint_case(&dec_str(t[1]).expect("text")),
             "repl" => run_repl_case(&dec_str(t[1]).expect("text")),
             "lintinc" => run_lint_include_case(&dec_str(t[1]).expect("main"), &dec_str(t[2]).expect("inc")),
+            "clififo" => run_fifo_case(&dec_str(t[1]).expect("content")),
             _ => "?".to_string(),
         }
     }
